@@ -919,10 +919,10 @@ func Run(c *core.Ctx) {
 		}
 		c.Sample("program", src)
 	}
-	nNoise := c.Pick(240, 2400)
+	nNoise := c.Pick(240, 9600)
 	nGate := c.Pick(3*nGateCfg, 30*nGateCfg)
 	if c.Race {
-		nNoise = c.Pick(64, 400)
+		nNoise = c.Pick(64, 1600)
 		nGate = c.Pick(nGateCfg, 4*nGateCfg)
 	}
 	for i := 0; i < nGate; i++ {
